@@ -121,6 +121,14 @@ class KernelSim(WorldBase):
             for t in THRESHOLDS:
                 evs.append(["session", {"role": "sweep", "flow": flow, "prefix": "s", "reg": reg, "ncu": t,
                                         "end": "normal"}])
+            if g.random() < 0.5:
+                # a kernel over a flattened rank (tuple coordinates, Metrics.associateShape)
+                M, Kk, N = g.randint(1, 3), g.randint(1, 3), g.randint(1, 4)
+                ent = [[[m, k, n], g.choice([1, 2, 3])] for m in range(M) for k in range(Kk) for n in range(N)
+                       if g.random() < 0.6]
+                to = g.random() < 0.5
+                for t in (2, 1000, g.choice(THRESHOLDS)):
+                    evs.append(["flat", {"dims": [M, Kk, N], "ent": ent, "ncu": t, "traced_outer": to}])
             creg = [x[:2] + [True] for x in reg]
             for _ in range(2):
                 evs.append(["session", {"role": "consume", "flow": flow, "prefix": "c", "reg": creg,
@@ -233,6 +241,8 @@ class KernelSim(WorldBase):
                 return self.ev_case(ev[1])
             if kind == "pairs":
                 return self.ev_pairs(ev[1])
+            if kind == "flat":
+                return self.ev_flat(ev[1])
             if kind == "swaps":
                 return self.ev_swaps(ev[1])
             if self.case is None:
@@ -559,6 +569,110 @@ class KernelSim(WorldBase):
                            f"in-memory trace {rank}-{typ} delivered {len(rows)} rows, the file holds "
                            f"{len(text.splitlines())} lines, or their content differs")
             self.probe("consumable_compared", ncmp)
+
+    def ev_flat(self, a):
+        """Z[n] = sum over (m,k) of A[m,k,n], iterating the flattened rank [m,k] (tuple coordinates)"""
+        M, Kk, N = a["dims"]
+        A = Tensor(rank_ids=["m", "k", "n"], shape=[M, Kk, N])
+        for pt, v in a["ent"]:
+            r = A.getPayloadRef(*pt)
+            r <<= v
+        Af = A.flattenRanks(depth=0, levels=1)
+        # (a list-valued rank id would put commas into the CSV header; kernels name the flattened rank)
+        Af.setRankIds(["mk", "n"])
+        Z = Tensor(rank_ids=["n"], shape=[N])
+        rank0 = str(Af.getRankIds()[0])
+        self.kexec += 1
+        self.nsess += 1
+        fs = self.fs
+        fs.reset_counters()
+        prefix = os.path.join(self.scratch, "f")
+        types_n = ["iter", "populate_1", "populate_read_0", "populate_write_0"]
+        exp_outer, exp_n, exp_src = [], [], []
+        Metrics.beginCollect(prefix)
+        err = None
+        try:
+            Metrics.setNumCachedUses(a["ncu"])
+            Metrics.associateShape(rank0, (M, Kk))
+            if a.get("traced_outer"):
+                Metrics.trace(rank0, "iter")
+            for t in types_n:
+                Metrics.trace("n", t)
+            root = Af.getRoot()
+            for i, (mk, a_n) in enumerate(root):
+                flat = mk[0] * Kk + mk[1]
+                exp_outer.append([i, flat, root.coords.index(mk)])
+                for j, (n, (z_ref, a_val)) in enumerate(Z.getRoot() << a_n):
+                    exp_n.append([i, j, flat, n, j])
+                    exp_src.append([flat, n, a_n.coords.index(n)])
+                    z_ref += a_val
+        except Exception as e:
+            err = f"{type(e).__name__}: {str(e)[:80]}"
+        try:
+            Metrics.endCollect()
+        except Exception as e:
+            err = err or f"endCollect {type(e).__name__}"
+        if self.prop != "C16":
+            return {"err": err}
+        if err:
+            self.V("C16", "C16.no-exception", "flat", f"kernel over a flattened rank raised {err}")
+            return {"err": err}
+        files = {}
+        for p in sorted(fs.written):
+            if os.path.exists(p):
+                with open(p) as fh:
+                    files[os.path.basename(p)] = fh.read()
+
+        def rows_of(name, ncols):
+            text = files.get(name)
+            if text is None:
+                self.V("C16", "C16.header", "flat", f"no trace file {name}")
+                return None, None
+            lines = text.splitlines()
+            if not lines:
+                return None, []
+            out = []
+            for ln in lines[1:]:
+                parts = ln.split(",")
+                try:
+                    out.append([int(x) for x in parts])
+                except ValueError:
+                    self.V("C16", "C16.row-shape", "flat", f"trace {name}: row {ln!r} is not a list of integers "
+                                                            f"(one per header column)")
+                    return lines[0].split(","), None
+                if len(parts) != ncols:
+                    self.V("C16", "C16.row-shape", "flat", f"trace {name}: row {ln!r} has {len(parts)} fields, header has {ncols}")
+            return lines[0].split(","), out
+        h, R = rows_of(f"f-n-iter.csv", 5)
+        if R is not None and (exp_n or R):
+            if h != [rank0 + "_pos", "n_pos", rank0, "n", "fiber_pos"]:
+                self.V("C16", "C16.header", "flat", f"n-iter header {h}")
+            # exact stamp values are not compared (stamps also tick on populate writes): only their order
+            if [r[2:] for r in R] != [r[2:] for r in exp_n]:
+                self.V("C16", "C16.one-row-per-access", "flat",
+                       f"n-iter rows (coordinates, position) {[r[2:] for r in R][:6]}... differ from the loop bodies "
+                       f"executed {[r[2:] for r in exp_n][:6]}... (flattened rank {rank0})")
+            if any(tuple(x[:2]) >= tuple(y[:2]) for x, y in zip(R, R[1:])):
+                self.V("C16", "C16.stamp-order", "flat", f"n-iter stamps are not strictly increasing: {[r[:2] for r in R][:8]}")
+        h, R = rows_of(f"f-n-populate_1.csv", 5)
+        if R is not None and (exp_src or R):
+            got = [[r[2], r[3], r[4]] for r in R]
+            if got != exp_src:
+                self.V("C16", "C16.one-row-per-access", "flat",
+                       f"n-populate_1 rows (flattened coordinate, n, position) {got[:6]}... expected {exp_src[:6]}...")
+        if a.get("traced_outer"):
+            h, R = rows_of(f"f-{rank0}-iter.csv", 3)
+            if R is not None and (exp_outer or R) and [r[1:] for r in R] != [r[1:] for r in exp_outer]:
+                self.V("C16", "C16.one-row-per-access", "flat", f"{rank0}-iter rows {R[:6]} expected {exp_outer[:6]}")
+        fkey = ("flatfiles", repr(a["dims"]), repr(a["ent"]), bool(a.get("traced_outer")))
+        ref = self.sweep.get(fkey)
+        if ref is None:
+            self.sweep[fkey] = files
+        elif ref != files:
+            bad = [n for n in sorted(set(ref) | set(files)) if ref.get(n) != files.get(n)]
+            self.V("C16", "C16.flush-independent", "flat", f"trace {bad[0]} of the flattened kernel differs between flush thresholds")
+        self.probe("flattened_rank_sessions")
+        return {"rows": len(exp_n)}
 
     # ---- C19
     def _isect_setup(self, s, flow):
